@@ -415,6 +415,11 @@ def val_eq(a, b):
         return a == b
     if (is_symbool(a) or isinstance(a, bool)) and (is_symbool(b) or isinstance(b, bool)):
         return simp(zbool(a) == zbool(b))
+    # a value taken out of an opaque document (sort Val) may be a string / an integer: equality with one is equality of terms
+    for x, y in ((a, b), (b, a)):
+        if isinstance(x, OpaqueVal) and str(x.term.sort()) == 'Val' and (is_str(y) or (is_intlike(y) and not isinstance(y, bool))):
+            from .seq import val_term
+            return simp(x.term == val_term(y))
     if is_intlike(a) or is_symbool(a):
         if is_intlike(b) or is_symbool(b):
             return simp(zint(a) == zint(b))
